@@ -38,6 +38,7 @@ func (g *Gen) GenFunc(key string) (res *FnResult) {
 	c := &FnCtx{g: g, top: fn, contract: con, assumed: map[string]bool{}}
 	res.wf = c.wantWF
 	defer func() {
+		c.pruneConstMaps()
 		res.Obls = c.obls
 		res.Lines = c.lines
 		res.Warnings = c.warnings
@@ -215,6 +216,9 @@ func (g *Gen) HeaderFor(r *FnResult) string {
 	has := func(n string) bool { return used == nil || used[n] }
 	var b strings.Builder
 	b.WriteString(Prelude())
+	if has("rnd") {
+		b.WriteString(PreludeRnd())
+	}
 	b.WriteString(`(define-fun godiv ((a Int) (b Int)) Int (ite (>= a 0) (ite (> b 0) (div a b) (- (div a (- b)))) (ite (> b 0) (- (div (- a) b)) (div (- a) (- b)))))
 (define-fun gomod ((a Int) (b Int)) Int (- a (* b (godiv a b))))
 `)
